@@ -27,6 +27,10 @@ type c18Env struct {
 	Src   []byte
 	Block bool
 	Segs  []text.Segment
+	// Prior (block reader only, same length as Segs): the reader is first built over a Segments object holding Prior and
+	// used; the object is then overwritten element by element with Segs (Segments.Set) and handed to Reset again. From then
+	// on the reader must behave exactly like a new reader over Segs.
+	Prior []text.Segment
 }
 
 func (e *c18Env) String() string {
@@ -40,6 +44,16 @@ func (e *c18Env) String() string {
 		}
 		fmt.Fprintf(&b, "{%d,%d,pad=%d}", s.Start, s.Stop, s.Padding)
 	}
+	if e.Prior != nil {
+		var p strings.Builder
+		for i, s := range e.Prior {
+			if i > 0 {
+				p.WriteString(",")
+			}
+			fmt.Fprintf(&p, "{%d,%d,pad=%d}", s.Start, s.Stop, s.Padding)
+		}
+		return "BlockReader(" + core.Q(e.Src) + ", S=[" + p.String() + "]); PeekLine(); Advance(1); S.Set(i, …) to [" + b.String() + "]; Reset(S)"
+	}
 	return "BlockReader(" + core.Q(e.Src) + ", [" + b.String() + "])"
 }
 
@@ -48,6 +62,19 @@ func (e *c18Env) newReader() text.Reader {
 		return text.NewReader(e.Src)
 	}
 	ss := text.NewSegments()
+	if e.Prior != nil {
+		ss.AppendAll(append([]text.Segment{}, e.Prior...))
+		rd := text.NewBlockReader(e.Src, ss)
+		if l, _ := rd.PeekLine(); len(l) > 0 {
+			rd.Advance(1)
+		}
+		_ = rd.LineOffset()
+		for i, sg := range e.Segs {
+			ss.Set(i, sg)
+		}
+		rd.Reset(ss)
+		return rd
+	}
 	ss.AppendAll(append([]text.Segment{}, e.Segs...))
 	return text.NewBlockReader(e.Src, ss)
 }
@@ -807,6 +834,38 @@ func runC18(r *core.Run) {
 		}
 		plan("reader-byte-sweep-depth2", mkReaders(bsrc), 2, false, "source reader over 3 sources for EVERY byte value b (b; a b b LF b c; b b LF a b)")
 		plan("blockreader-byte-sweep-depth2", mkBlocks(bsrc, 2, []int{0, 2}), 2, false, "block reader over every carving (≤2 segments) of the same sources")
+	}
+	// a block reader whose Segments object is rewritten in place and handed to Reset again
+	{
+		var envs []*c18Env
+		for _, src := range small {
+			cs := c18Carvings(src, 2, []int{0, 2})
+			byLen := map[int][][]text.Segment{}
+			for _, c := range cs {
+				byLen[len(c)] = append(byLen[len(c)], c)
+			}
+			for _, c := range cs {
+				if len(c) == 0 {
+					continue
+				}
+				// priors: the same lines with the last one a byte shorter, and up to three other carvings of equal length
+				pri := [][]text.Segment{}
+				if last := c[len(c)-1]; last.Stop-last.Start > 1 {
+					p := append([]text.Segment{}, c...)
+					p[len(p)-1].Stop--
+					pri = append(pri, p)
+				}
+				for k, o := range byLen[len(c)] {
+					if k < 3 {
+						pri = append(pri, o)
+					}
+				}
+				for _, p := range pri {
+					envs = append(envs, &c18Env{Src: src, Block: true, Segs: c, Prior: p})
+				}
+			}
+		}
+		plan("blockreader-reset-same-segments-depth2", envs, 2, false, "block reader built over one list of line segments, used, then its Segments object overwritten in place (Segments.Set, same length) with another carving of the same source and passed to Reset again: every word of ≤3 tokens over {a,TAB,LF,[,]}, every carving of ≤2 segments × (the same carving with a shorter last line, three other carvings of equal length)")
 	}
 	// padding ladder: EVERY padding width 0..maxP, set on the readers and carried by block-reader segments
 	maxP := core.Pick(r, 130, 520)
